@@ -38,6 +38,7 @@ LEVEL = "exploration"
 TECHNIQUE = ("deterministic simulation: seeded box/argument grammar sent by one real BinaryBoxProtocol to another over a "
              "simulated link with seeded segmentation, vs a reference wire model and value equality")
 QUICK_RUNS = 50000
+TWIN_P = 0.08   # this share of the runs drives two independent instances of the scenario one after the other (detsim.runner._run_scenario)
 BATCH = 100
 # Known finding (empty key accepted by AmpBox.serialize): weight of that item among
 # the unrepresentable kinds (the others have weight 8 each).
